@@ -6,8 +6,8 @@ from harness import fw, gen_view, view_x, cpp_build, view_ref
 from harness.irx import OutOfModel
 
 META = {
-    "technique": "Coq model of the generated view code (Maybe<> arithmetic, storage clamp, scalar/array/struct views) with theorems on monotonicity/prefix stability, Ok()-switch equivalence and $size = max end; tied to /repo by translating the real IR and diffing against compiled generated C++ on the same buffers",
-    "level_text": "Machine-checked theorems about an executable Gallina model of the generated C++ view (expression evaluation over Maybe<>, GetOffsetStorage clamping, BitBlock/OffsetBitBlock, scalar, array, structure, virtual, alias and parameter views). The model is regenerated from the real IR on every run (translator harness/view_x.py) and its observations (Ok, IsComplete, SizeIsKnown/size, has_x tri-state, values, element counts) are compared with the observations printed by the header the working tree's embossc generates, compiled with g++, on generated modules and buffers of every length.",
+    "technique": "Coq model of the generated view code (Maybe<> arithmetic, storage clamp, scalar/array/struct views) with theorems on monotonicity/prefix stability, Ok()-switch equivalence and $size = max end, and agreement with an independent reference semantics (View/Ref.v flat structures, View/RefNest.v trees for bits blocks, nested structures with parameters and dynamic sizes); tied to /repo by translating the real IR and diffing against compiled generated C++ on the same buffers",
+    "level_text": "Machine-checked theorems about an executable Gallina model of the generated C++ view (expression evaluation over Maybe<>, GetOffsetStorage clamping, BitBlock/OffsetBitBlock, scalar, array, structure, virtual, alias and parameter views). The model is regenerated from the real IR on every run (translator harness/view_x.py) and its observations (Ok, IsComplete, SizeIsKnown/size, has_x tri-state, values, element counts) are compared with the observations printed by the header the working tree's embossc generates, compiled with g++, on generated modules and buffers of every length. The reference semantics (per-field equations written from the language reference, no storage objects or evaluation order) is proved equal to the model's report for every structure of a decidable class (gen_agrees_with_ref_partial, gen_agrees_with_ref_nested: scalars, conditions, dynamic offsets, bits blocks, nested structures to any depth with parameters and dynamic sizes; arrays and conditional virtual fields refuted with witnesses) and its observation vector is compared directly with the compiled C++ on complete and truncated buffers (harness/view_ref.py).",
     "level_note": "Trusted: Coq kernel/vm_compute; the IR translator and C++ driver generator (harness/view_x.py); g++ 12. Modelled, not verified: the C++ runtime and templates themselves. Scalar decoding is proved in C02 (Bits); here it is a model function compared by correspondence. Out of model (counted): user externals, multi-dimensional arrays, aliases of non-constant virtual fields (finding F21), Float fields.",
 }
 
@@ -139,7 +139,7 @@ def run(ctx):
                 "enough for at least the tag byte; distinct by (module text, buffer)")
     ctx.trusted = ["Coq 8.16.1 kernel, vm_compute", "harness/view_x.py (IR translator + C++ driver generator)", "harness/cpp_build.py", "g++ -std=c++14 -O0"]
     ctx.audit()
-    ctx.check_theorems("EmbossV.View.Properties_C01", "View/Properties_C01.v", expect_min=9)
+    ctx.check_theorems("EmbossV.View.Properties_C01", "View/Properties_C01.v", expect_min=32)
 
     n_mod = 150 if ctx.thorough() else 16
     n_buf = 60 if ctx.thorough() else 30
